@@ -117,3 +117,67 @@ example : renderInt (-120) = [45, 49, 50, 48] := by
   simp [renderNat, h]
 
 end Verif.Num
+
+/-! ### four decimals -/
+namespace Verif.Num
+
+theorem renderNat_digits (n : Nat) : ∀ c ∈ renderNat n, 48 ≤ c ∧ c ≤ 57 := by
+  intro c hc
+  unfold renderNat at hc
+  by_cases h0 : n = 0
+  · simp [h0] at hc; omega
+  · simp only [h0, if_false, List.mem_map, List.mem_reverse] at hc
+    obtain ⟨d, hd, rfl⟩ := hc
+    have := digitsRev_lt n d hd
+    omega
+
+theorem parse_frac4 (r : Nat) (hr : r < 10000) : parseNat (frac4 r) = some r := by
+  simp only [parseNat, frac4, List.isEmpty_cons, Bool.false_eq_true, if_false, List.foldl_cons, List.foldl_nil, Option.bind_some]
+  have d1 : isDigit (r / 1000 % 10 + 48) = true := by simp [isDigit]; omega
+  have d2 : isDigit (r / 100 % 10 + 48) = true := by simp [isDigit]; omega
+  have d3 : isDigit (r / 10 % 10 + 48) = true := by simp [isDigit]; omega
+  have d4 : isDigit (r % 10 + 48) = true := by simp [isDigit]; omega
+  simp only [d1, d2, d3, d4, if_true, Option.bind_some, Nat.add_sub_cancel]
+  congr 1
+  omega
+
+theorem takeWhile_digits (ds rest : List Nat) (h : ∀ c ∈ ds, 48 ≤ c ∧ c ≤ 57) :
+    (ds ++ 46 :: rest).takeWhile (· != 46) = ds ∧ (ds ++ 46 :: rest).dropWhile (· != 46) = 46 :: rest := by
+  induction ds with
+  | nil => simp
+  | cons d ds ih =>
+    have hd := h d (by simp)
+    have hne : (d != 46) = true := by simp; omega
+    obtain ⟨i1, i2⟩ := ih (fun c hc => h c (List.mem_cons_of_mem _ hc))
+    simp [List.takeWhile_cons, List.dropWhile_cons, hne, i1, i2]
+
+/-- **C13, a number written with four decimals reads back** (sign and the rounded magnitude `k = |x|·10⁴`) -/
+theorem C13_fixed4_roundtrip (neg : Bool) (k : Nat) : parseFixed4 (renderFixed4 neg k) = some (neg, k) := by
+  obtain ⟨c, r, hcr, hc⟩ := renderNat_head (k / 10000)
+  have hdig := renderNat_digits (k / 10000)
+  obtain ⟨t1, t2⟩ := takeWhile_digits (renderNat (k / 10000)) (frac4 (k % 10000)) hdig
+  have hp1 := parse_render_nat (k / 10000)
+  have hp2 := parse_frac4 (k % 10000) (Nat.mod_lt _ (by decide))
+  have hlen : (frac4 (k % 10000)).length = 4 := rfl
+  cases neg with
+  | true =>
+    have hs : signBody (45 :: (renderNat (k / 10000) ++ 46 :: frac4 (k % 10000))) = (true, renderNat (k / 10000) ++ 46 :: frac4 (k % 10000)) := rfl
+    simp only [renderFixed4, if_true, List.cons_append, List.nil_append, parseFixed4, hs, t1, t2, hlen, beq_self_eq_true, hp1, hp2]
+    congr 2
+    omega
+  | false =>
+    have hs : signBody (renderNat (k / 10000) ++ 46 :: frac4 (k % 10000)) = (false, renderNat (k / 10000) ++ 46 :: frac4 (k % 10000)) := by
+      rw [hcr]
+      simp only [List.cons_append]
+      unfold signBody
+      split
+      · rename_i heq; simp at heq; exact absurd heq.1 hc
+      · rfl
+    simp only [renderFixed4, Bool.false_eq_true, if_false, List.nil_append, parseFixed4, hs, t1, t2, hlen, beq_self_eq_true, if_true, hp1, hp2]
+    congr 2
+    omega
+
+example : renderFixed4 true 0 = [45, 48, 46, 48, 48, 48, 48] ∧ parseFixed4 [45, 48, 46, 48, 48, 48, 48] = some (true, 0) ∧
+    parseFixed4 [49, 46, 53] = none := by decide
+
+end Verif.Num
